@@ -202,7 +202,31 @@ pub fn build_db(sc: &Scenario) -> MemDb {
         };
         db.faults.push((key, f.mode.clone()));
     }
+    for f in &sc.raw_faults {
+        if let Some(k) = raw_to_rkey(f) {
+            db.faults.push((k, f.mode.clone()));
+        }
+    }
     db
+}
+
+pub fn raw_to_rkey(f: &RawFault) -> Option<RKey> {
+    use std::str::FromStr;
+    Some(match f.kind {
+        0 => RKey::Basic(Address::from_str(&f.a).ok()?),
+        1 => RKey::Storage(Address::from_str(&f.a).ok()?, U256::from_str(&f.b).ok()?),
+        2 => RKey::Code(B256::from_str(&f.a).ok()?),
+        _ => RKey::BlockHash(f.b.parse().ok()?),
+    })
+}
+
+pub fn rkey_to_raw(k: &RKey, mode: FaultMode) -> RawFault {
+    match k {
+        RKey::Basic(a) => RawFault { kind: 0, a: format!("{a:?}"), b: String::new(), mode },
+        RKey::Storage(a, s) => RawFault { kind: 1, a: format!("{a:?}"), b: format!("{s}"), mode },
+        RKey::Code(h) => RawFault { kind: 2, a: format!("{h:?}"), b: String::new(), mode },
+        RKey::BlockHash(n) => RawFault { kind: 3, a: String::new(), b: format!("{n}"), mode },
+    }
 }
 
 pub fn build_env(sc: &Scenario) -> (CfgEnv, BlockEnv) {
